@@ -232,9 +232,7 @@ def is_ret(f):
 
 def must_release(f, rep, rule, key, acq_block, release_blocks, what, fix):
     """every non-panicking path from the acquire to a return passes a release block"""
-    t = f.blocks[acq_block]["t"]
-    start = [t["to"]] if "to" in t else []
-    path = f.path_search(start, set(release_blocks), is_ret(f))
+    path = f.path_search([], set(release_blocks) - {acq_block}, is_ret(f), via=acq_block)
     return rep.ob(rule, key, path is None,
                   f"{cname(f.id)}: {what} at {f.loc(acq_block)} is not {fix} on every path "
                   f"(a return is reachable without it)",
@@ -477,11 +475,133 @@ def r4(db, rep):
                "push_handler: Handler.environment_count is not the compiler's current_open_environments_count", loc=f.span)
 
 
+# ----------------------------------------------------------------------------- R5 / R6
+OPEN_OPS = ("GetLocator", "GetNameAndLocator")
+CLOSE_OPS = ("SetNameByLocator",)
+LABEL = "bytecompiler::Label"
+PATCHERS = ("ByteCompiler::patch_jump", "ByteCompiler::patch_jump_with_target")
+
+
+def binding_op(f, t):
+    """variant names the BindingAccessOpcode argument of an emit_binding_access call may have"""
+    if len(t["args"]) < 2:
+        return set()
+    o = t["args"][1]
+    if o[0] == "k":
+        return {o[1].get("c", "").split("::")[-1]}
+    l = op_local(o)
+    out = set()
+    for r in (roots(f, l) if l is not None else []):
+        if r[0] == "rv" and r[2].get("k") == "agg":
+            out.add(r[2].get("variant"))
+        elif r[0] == "const":
+            out.add(r[1].get("c", "").split("::")[-1])
+        else:
+            out.add("?")
+    return out
+
+
+def r5(db, rep):
+    rep.rule("R5", "binding-reference window: between emit_binding_access(GetLocator|GetNameAndLocator) and "
+                   "emit_binding_access(SetNameByLocator) every path closes the window, and no jump label created inside "
+                   "the window is patched after it closed (such a jump skips the close and leaves the locator pushed)")
+    nwin = 0
+    for f in db.fns.values():
+        if not f.id.startswith("boa_engine::bytecompiler"):
+            continue
+        name = cname(f.id)
+        opens, closes = [], []
+        for b, t in f.calls():
+            if cn(t) == "ByteCompiler::emit_binding_access":
+                ops = binding_op(f, t)
+                if ops & set(OPEN_OPS):
+                    opens.append(b)
+                if ops & set(CLOSE_OPS):
+                    closes.append(b)
+        for i, ob in enumerate(opens):
+            nwin += 1
+            must_release(f, rep, "R5", f"{name}:window:{i}", ob, closes,
+                         "the binding-reference window opened by GetLocator/GetNameAndLocator",
+                         "closed by SetNameByLocator")
+            # labels created while the window may be open
+            inwin = f.reach_from(f.succs(ob), avoid=set(closes))
+            after_close = f.reach_from([s_ for c in closes for s_ in f.succs(c)])
+            k = -1
+            for b, t in f.calls():
+                if b not in inwin:
+                    continue
+                d = t["dest"]
+                if len(d) != 1 or LABEL not in f.locals[d[0]]:
+                    continue
+                k += 1
+                T, stores, ret = taint(f, d[0])
+                late = []
+                for bb, tt in f.calls():
+                    if cn(tt) in PATCHERS and arg_hits(tt, T) and bb in after_close:
+                        for cb in closes:
+                            if f.path_search([], set(), lambda x, bb=bb: x == bb, via=[ob, b, cb]) is not None:
+                                late.append(bb)
+                                break
+                rep.ob("R5", f"{name}:window:{i}:label:{k}", not late,
+                       f"{name}: a jump label created at {f.loc(b)} inside the binding-reference window (opened "
+                       f"{f.loc(ob)}) is patched at {[f.loc(x) for x in late]} after SetNameByLocator: the jump skips the "
+                       f"store and leaves the locator on the binding stack — a later assignment resolves against it",
+                       loc=f.loc(b))
+    rep.floor("R5", "binding-reference windows", nwin, 2)
+
+
+def r6(db, rep):
+    rep.rule("R6", "every Label produced by a jump emitter is consumed on every path: patched, pushed into a jump record / "
+                   "label list, or returned (an unconsumed label is a jump to the dummy address)")
+    n = 0
+    for f in db.fns.values():
+        if not f.id.startswith("boa_engine::bytecompiler"):
+            continue
+        name = cname(f.id)
+        k = -1
+        for b, t in f.calls():
+            d = t["dest"]
+            if len(d) != 1:
+                continue
+            ty = f.locals[d[0]]
+            if ty != "boa_engine::bytecompiler::Label" and ty != "std::option::Option<boa_engine::bytecompiler::Label>" \
+                    and ty != "(boa_engine::bytecompiler::Label, boa_engine::bytecompiler::Label)":
+                continue
+            c = cn(t)
+            if not (c.startswith("ByteCompiler::") or "{closure" in c or c in ("FnOnce::call_once", "Fn::call", "FnMut::call_mut")):
+                continue
+            if c in ("Label::clone",):
+                continue
+            n += 1
+            k += 1
+            T, stores, ret = taint(f, d[0])
+            if ret:
+                rep.ob("R6", f"{name}:label:{k}", True, loc=f.loc(b))
+                continue
+            users = [bb for bb, tt in f.calls() if bb != b and arg_hits(tt, T)]
+            users += [bb for bb, p_ in stores]
+            if ty.startswith("std::option::Option<"):
+                # `if let Some(label) = label { patch }`: nothing to patch on the None edge
+                for sb in f.reachable():
+                    tt = f.blocks[sb]["t"]
+                    if tt["t"] != "switch":
+                        continue
+                    l = op_local(tt["o"])
+                    dd = f.single_def(l) if l is not None else None
+                    if dd and dd[1] != "t" and dd[2].get("k") == "discr" and len(dd[2]["p"]) == 1 and dd[2]["p"][0] in T:
+                        users.append(tt["tgts"][tt["vals"].index("0")] if "0" in tt["vals"] else tt["tgts"][-1])
+            must_release(f, rep, "R6", f"{name}:label:{k}", b, users, f"the jump label returned by {c.split('::')[-1]}",
+                         "patched / recorded")
+    rep.floor("R6", "label-producing calls", n, 50)
+
+
 def run(db, rep, tier):
     r1(db, rep)
     r2(db, rep)
     r3(db, rep)
     r4(db, rep)
+    r5(db, rep)
+    r6(db, rep)
     rep.assumptions += [
         "panicking paths (unwind edges, js_expect/expect failures) are outside these rules (they are C02's concern)",
     ]
